@@ -60,6 +60,13 @@ def result_of(kind, kw):
         return (n, float(n % 1000) / 8, [n % 7, n % 11])
     if kind == "tuple_arr":
         return (float(n % 4096), np.arange(3) + (n % 1000))
+    if kind == "tuple_intarr":
+        return (n % 977, np.array([n % 5, n % 7, n % 9], dtype=np.int64),
+                np.array([bool(n & 1), bool(n & 2)]))
+    if kind == "intarr2d":
+        return np.arange(6, dtype=np.int64).reshape(2, 3) + (n % 4096)
+    if kind == "tuple_strarr":
+        return (float(n % 31), np.array(["s%d" % (n % 3), "t%d" % (n % 5)]))
     if kind == "tuple_2d":
         return (float(n % 512), [[n % 5, n % 7, n % 9], [n % 11, n % 13, 1]])
     if kind == "nested":
@@ -181,7 +188,11 @@ def all_null(x):
     try:
         arr = np.asarray(x, dtype=float)
     except (TypeError, ValueError):
-        return False
+        try:
+            arr = np.asarray(x, dtype=object)
+            return all(v is None or is_nan(v) for v in arr.ravel())
+        except Exception:
+            return False
     return bool(np.isnan(arr).all())
 
 
